@@ -295,6 +295,35 @@ theorem connect_refines {b : B} {s : Spec.Broker.S} (h : R b s) (c : Nat) (req :
     rw [Mqtt.Proofs.Connect.step_first_eq, Mqtt.Proofs.Connect.connect_eq]
     exact this
 
+/-- SessionPresent after a take-over: the CONNECT finds a session of the client exactly when
+the connection it took over had CleanSession = 0 (its session was kept at its end) - and
+resumes it exactly when it has CleanSession = 0 itself -/
+theorem takeOver_prior {b : B} {s : Spec.Broker.S} (h : R b s) (c : Nat) (req : Connect)
+    (hne : req.clientId.isEmpty = false) (hreal : realCid req.clientId = true)
+    (c0 : Nat) (σ : Sess) (hσ : liveSess b c0 = some σ) (hcid : σ.cid = req.clientId) :
+    ∃ k, Spec.Broker.getConn s c0 = some k ∧ k.clean = σ.clean ∧
+      (specPrior (Spec.Broker.endConn s c0 false).1 c req).isSome = (!req.clean && !k.clean) := by
+  obtain ⟨k, hk, hrel⟩ := h.live c0 σ hσ
+  have hkc : k.cid = req.clientId := by
+    rcases hrel.cid with ⟨e1, _⟩ | ⟨e1, _, _⟩
+    · rw [← e1, hcid]
+    · rw [hcid] at e1; rw [e1, anonId_not_real] at hreal; cases hreal
+  refine ⟨k, hk, hrel.clean.symm, ?_⟩
+  have hst : (Spec.Broker.endConn s c0 false).1.stored = (endSpec s c0 k).stored := by
+    rw [spec_endConn_eq s c0 k false hk]
+    cases k.will with
+    | none => rfl
+    | some w => exact (spec_retainStep_frame _ _).2.1
+  unfold specPrior specClean specCid
+  simp only [hne, Bool.or_false, Bool.false_eq_true, ↓reduceIte, hst, endSpec, hkc]
+  cases req.clean with
+  | true => simp
+  | false =>
+    simp only [Bool.false_eq_true, ↓reduceIte, Bool.not_false, Bool.true_and]
+    cases k.clean with
+    | true => simp only [↓reduceIte]; rw [lookup_filter_self']; rfl
+    | false => simp [List.lookup_cons]
+
 /-- the reference broker's reasons to refuse a first packet -/
 def reasons (f : First) (a : Bool) : List (Option Nat) :=
   match f with
